@@ -255,7 +255,11 @@ def call_spec(E, st, name, args, kwargs):
         f = E.uf_decl(name if u.raw else "uf_" + name, *([sort_of(k) for k in u.argkinds] + [sort_of(u.reskind)]))
         ts = []
         for a, k in zip(args, u.argkinds):
-            ts.append(_arg_term(E, st, a, k))
+            try:
+                ts.append(_arg_term(E, st, a, k))
+            except Unsupported:
+                # ill-kinded application: only legal on an infeasible branch of a specification
+                return [E.raise_(st, "TypeError", "%s applied to %s" % (name, a.kind))]
         return [Out("ok", st, V(u.reskind, f(*ts)))]
     sf = E.R.specfns[name]
     if sf.recursive:
@@ -771,6 +775,7 @@ def apply_contract(E, st, c, selfv, args, kwargs):
             continue
         s2, ev = E.mk_exc(s1, exc)
         ev.aux["why"] = "raised by %s" % c.qual
+        ev.aux["abstract"] = True  # this class or any subclass of it
         res.append(Out("raise", s2, ev))
     return res
 
